@@ -220,7 +220,8 @@ class State:
         n.stack = [f.copy() for f in s.stack]
         n.pc = list(s.pc)
         n.log = list(s.log)
-        n.notes = dict(s.notes)
+        # notes are per path: containers are copied one level deep so that appending on one path does not leak into its siblings
+        n.notes = {k: (list(v) if isinstance(v, list) else dict(v) if isinstance(v, dict) else v) for k, v in s.notes.items()}
         return n
 
 
